@@ -21,6 +21,7 @@ from __future__ import annotations
 import hashlib
 import json
 import multiprocessing as mp
+import os
 import shutil
 import warnings
 
@@ -109,6 +110,7 @@ def mc_cfg(plan, invs, bug="none", K=1, S=0, emit=False):
 HEADER_VALUES = {"pauth": ("Proxy-Authorization", "Basic cHJveHk6c2VjcmV0"), "ptag": ("X-Proxy-Tag", "via-proxy"),
                  "rauth": ("Authorization", "Bearer origin-token"), "rtag": ("X-Req", "1")}
 CLIENT_TIMEOUT = 10.0
+J = max(1, int(os.environ.get("VERIF_JOBS") or 0) or os.cpu_count() or 4)   # size of every pool / TLC worker set
 
 
 def exc_chain(ex):
@@ -217,14 +219,15 @@ def validate(traces):
     return [(ver[i + 1][1], ver[i + 1][2], soft[i + 1][1]) for i in range(len(traces))]
 
 
-def corrupted_traces(scenarios, runs):
-    """Monitor self-test: one clean recorded tunnel trace and one refused trace, each corrupted in a
-    single field, must be rejected by TLC with exactly the clause that field belongs to."""
+def corrupted_traces(scenarios):
+    """Monitor self-test: the model's expected log of one healthy tunnel scenario and of one refused
+    CONNECT, each corrupted in a single field, must be rejected by TLC with exactly the clause that
+    field belongs to (independent of how the real code behaves)."""
     import copy
     base = refused = None
-    for sc, (ev, errs, _) in zip(scenarios, runs):
-        c = sc["cfg"]
-        if c["ds"] == "https" and not c["fwd"] and c["hk"] == "name" and c["port"] == "default" and not errs:
+    for sc in scenarios:
+        c, ev = sc["cfg"], sc["log"]
+        if c["ds"] == "https" and not c["fwd"] and c["hk"] == "name" and c["port"] == "default":
             if base is None and sc["nreq"] == 1 and sc["replies"] == ["200"] and c["ocert"] == "ok" and \
                     c["pcert"] == "ok" and c["ph"] and any(e["party"] == "origin" for e in ev):
                 base = (sc, ev)
@@ -310,6 +313,13 @@ def _emit_shard(args):
     return {"scs": scs, "distinct": r.distinct, "generated": r.generated, "wall": r.wall, "plan": plan}
 
 
+def _simulate(args):
+    nsim, seed = args
+    r = tlc.run("MC_Proxy", mc_cfg("full", ["Emit"], emit=True), workers=1, simulate=f"num={nsim}", depth=400,
+                seed=seed, heap="2g", timeout=3600)
+    return tlc.tagged_json(r.out, "SC")
+
+
 def _drive_chunk(scs):
     return [run_scenario(sc) for sc in scs]
 
@@ -320,7 +330,7 @@ def _validate_chunk(traces):
 
 def _stage1(args):
     name, plan, invs, bug, cov = args
-    r = tlc.run("MC_Proxy", mc_cfg(plan, invs, bug=bug), workers=4, coverage=cov, timeout=7200, heap="4g",
+    r = tlc.run("MC_Proxy", mc_cfg(plan, invs, bug=bug), workers=max(1, min(2, J // 8)), coverage=cov, timeout=7200, heap="3g",
                 expect_fail=True)
     return {"name": name, "plan": plan, "bug": bug, "distinct": r.distinct, "generated": r.generated, "depth": r.depth,
             "wall": r.wall, "violated": r.violated, "error": r.error, "coverage": r.coverage, "tail": r.out[-1500:]}
@@ -389,17 +399,16 @@ def run(rep):
     plans = ["core", "forms"] if quick else ["core3", "forms2"]
     K = 1 if quick else 8
     nsim = 300 if quick else 4000
-    nproc = 12 if quick else 16
+    nproc = min(J, 12 if quick else 16)
     try:
         with mp.Pool(nproc) as pool:
-            # ---- stage 1 runs asynchronously while scenarios are emitted and replayed
+            # ---- stage 2: emission (exhaustive plans + simulation over the full constants, beyond the plans);
+            # ---- stage 1 runs asynchronously in the same pool while the scenarios are replayed
+            emis = pool.map_async(_emit_shard, [(p, K, s) for p in plans for s in range(K)])
+            sim = pool.apply_async(_simulate, ((nsim, rep.seed + 1),))
             s1jobs = [(f"MC_Proxy[{p}]", p, HARD + EXTRA, "none", p == plans[0]) for p in plans]
             s1jobs += [(f"MC_Proxy[bugs,Bug={b}]", "bugs", [c] if c else HARD, b, False) for b, c in BUGS.items()]
             s1 = pool.map_async(_stage1, s1jobs)
-            emis = pool.map_async(_emit_shard, [(p, K, s) for p in plans for s in range(K)])
-            # ---- stage 2b: simulation over the full constants (beyond the exhaustive plans)
-            rs = tlc.run("MC_Proxy", mc_cfg("full", ["Emit"], emit=True), workers=1, simulate=f"num={nsim}", depth=400,
-                         seed=rep.seed + 1, heap="2g", timeout=3600)
             scenarios, seen, emitted = [], set(), 0
             for o in emis.get():
                 emitted += len(o["scs"])
@@ -411,7 +420,7 @@ def run(rep):
                         seen.add(sc_key(sc))
                         scenarios.append(sc)
             nsims = 0
-            for sc in tlc.tagged_json(rs.out, "SC"):
+            for sc in sim.get():
                 nsims += 1
                 if sc_key(sc) not in seen:
                     seen.add(sc_key(sc))
@@ -432,9 +441,9 @@ def run(rep):
             if len(runs) != len(scenarios):
                 raise tlc.MachineryError(f"replayed {len(runs)} of {len(scenarios)} scenarios")
             traces = [{"cfg": sc["cfg"], "events": r[0]} for sc, r in zip(scenarios, runs)]
-            probes = corrupted_traces(scenarios, runs)
+            probes = corrupted_traces(scenarios)
             verdicts = [v for part in pool.map(_validate_chunk, chunks(traces + [t for t, _ in probes],
-                                                                       4 if quick else 12)) for v in part]
+                                                                       min(J, 4 if quick else 12))) for v in part]
             for (_, want), (pos, clause, _) in zip(probes, verdicts[len(traces):]):
                 if clause != want:
                     raise tlc.MachineryError(f"monitor self-test: a trace corrupted to break {want} was judged {clause}")
@@ -494,7 +503,7 @@ def replay(rep, path):
     rep.nontrivial.update({1, 2})
     rep.states = rep.transitions = 1
     if case["kind"] == "stage1":
-        r = tlc.run("MC_Proxy", mc_cfg(case["plan"], HARD + EXTRA), workers="auto", heap="4g", expect_fail=True)
+        r = tlc.run("MC_Proxy", mc_cfg(case["plan"], HARD + EXTRA), workers="auto", heap="3g", expect_fail=True)
         if r.violated:
             rep.violation("DesignModel", f"TLC: {r.violated} violated by the model", case)
         return
